@@ -66,6 +66,9 @@ func c12eSameLocs(a, b []lsp.Location) bool {
 func VerifRun_C12e() {
 	lo, hi := verifParam("TMIN"), verifParam("TMAX")
 	ti := verifConcretize(verifRange("template", lo, hi))
+	if ti == verifParamOr("TSKIP", -1) {
+		return // (a template that only another property's range includes: see known_findings.txt, C05-unspaced-field-value)
+	}
 	t := check.VpTemplateText(ti)
 	tail := verifConcretize(verifRange("tail", 0, verifParam("TAILS")-1))
 	t, ok := c12eTail(t, tail)
